@@ -132,6 +132,8 @@ def decisions(res, unit):
     P = problems()
     n = unit["n"]
     pts = [(float(3 * i % 7), float((5 * i + i * i) % 6)) for i in range(n)]
+    if unit.get("large"):
+        pts = [(float(i % 17) + 0.01 * i, float((7 * i) % 23) - 0.02 * i) for i in range(n)]  # pairwise distinct
 
     class FD:
         def __init__(s, level, active=True):
@@ -243,9 +245,39 @@ def decisions(res, unit):
     def nbc(inds, mx):
         return sorted(idx(inds, NearestBetterClustering(inds, 1.5, 1.0).cluster()))
 
+    def nbc_cut(inds, mx):
+        # truncation cut inside a tie group / several individuals tied for best: which of the tied ones is kept / becomes the root is
+        # decided by their order in the input, alike in both formulations
+        return sorted(idx(inds, NearestBetterClustering(inds, 1.0, 0.7).cluster()))
+
     def best(inds, mx):
         return [idx(inds, [max(inds)]), idx(inds, sorted(inds)), idx(inds, sorted(inds, reverse=True))]
 
+    if unit.get("large"):
+        # beyond the small scope: 100-300 individuals / candidates (threshold-switched code paths), a few fitness patterns instead of
+        # all weak orderings: all distinct, a unique best with tie groups of n/5, tie groups of n/2
+        patterns = [tuple(float((i * 37) % n) for i in range(n)), tuple(0.0 if i == 5 else 1.0 + (i % 5) for i in range(n)), tuple(0.0 if i == 5 else 1.0 + (i % 2) for i in range(n))]
+        for fits in patterns:
+            both("max/sorted", best, fits)
+            both("tournament", tournament, fits)
+            both("DE.run", de_step(False), fits)
+            both("DE.run(dither)", de_step(True), fits)
+            both("SHADE.run", shade_step, fits)
+            both("NBC", nbc, fits)
+            both("NBC(cut 0.7)", nbc_cut, fits)
+            both("NBC(cut 0.7, tied best)", nbc_cut, tuple(float(i % 3) for i in range(n)))
+            both("topk(0)", topk(0), fits)
+            both("topk(n)", topk(n), fits)
+            if len(set(fits)) == n:
+                for k in (1, 10, n // 2, n - 1):
+                    both(f"topk({k})", topk(k), fits)
+                for k in (1, 10):
+                    both(f"DemeLimit({k})", demelimit(k), fits)
+                for L, act in ((10, 0), (10, 3), (40, 5)):
+                    both(f"LevelLimit({L}) active={act}", levellimit(L, act), fits)
+        res.configs += 1
+        res.configs_completed += 1
+        return
     nan = float("nan")
     if n <= 4:
         # one individual whose fitness is NaN (objective undefined there): must be treated alike in both formulations
@@ -328,6 +360,15 @@ def units(tier, seed):
     us = [{"kind": "twin", "descs": c} for c in chunks(descs, 12)]
     for n in (2, 3, 4, 5) if tier == "quick" else (2, 3, 4, 5, 6):
         us.append({"kind": "decisions", "n": n})
+    for n in (100, 150, 300):
+        us.append({"kind": "decisions", "n": n, "large": True})
+    # beyond the small scope: twin runs with populations of 100 / 150 in dimension 12 (index-stable engines only)
+    from ..scale import big_population_worlds
+
+    big = [dict(d, Mh=4) for d in big_population_worlds(tier, seed, engines=[("SHADE", "CMAf"), ("DE", "SHADE"), ("DEd", "DE"), ("LHS", "SHADE"), ("SHADE",)]) if not d["maximize"]]
+    for d in big:
+        d.pop("maximize", None)
+    us += [{"kind": "twin", "descs": c} for c in chunks(big, 3)]
     return us
 
 
@@ -352,5 +393,5 @@ def replay(rep):
     if rep["unit"]["kind"] == "twin":
         twin(res, rep["unit"], rep["desc"])
     else:
-        decisions(res, {"n": rep["desc"]["n"]})
+        decisions(res, {"n": rep["desc"]["n"], "large": rep["desc"]["n"] >= 50})
     return res.violations
